@@ -331,9 +331,20 @@ class CallGraph:
                         ws |= self.arg_write_keys(a)
         return ws
 
+    def writes_refs(self, q):
+        return self._wr.get(q, frozenset())
+
     def _build_modref(self):
+        self._wr = {}
         for fn in self.prog.functions.values():
             self.direct_writes[fn.qname] = self._direct_writes_fn(fn)
+            refs = set(self.direct_writes[fn.qname])
+            for b, ln, n in fn.nodes():
+                if n.get("k") == "mem" and "r" in n:
+                    refs.add(("F", n["r"], n["f"]))
+                elif n.get("k") == "var" and n.get("sc") in ("g", "s", "sl"):
+                    refs.add(("G", n["n"]))
+            self._wr[fn.qname] = frozenset(refs)
         # transitive closure (iterate to fixpoint)
         writes = {q: set(w) for q, w in self.direct_writes.items()}
         changed = True
@@ -358,6 +369,138 @@ class CallGraph:
         return False
 
 
+class RetSets:
+    """Flow-insensitive 'which integer constants may this function return'.
+    retset[q] is a frozenset of ints, or None when some returned value has an
+    untracked origin (arithmetic, parameter, external call, memory)."""
+
+    LIMIT = 48
+
+    def __init__(self, prog, cg):
+        self.prog = prog
+        self.cg = cg
+        self.ret = {}
+        self._build()
+
+    def _assigns(self, fn):
+        """local id -> list of RHS expressions assigned to it (None = untracked write)."""
+        m = {}
+        for b, ln, n in fn.nodes():
+            k = n.get("k")
+            if k == "decl":
+                v = n.get("var") or {}
+                if "id" in v:
+                    m.setdefault(v["id"], []).append(n.get("init"))
+                    if "init" not in n:
+                        m[v["id"]].pop()
+            elif k == "bin" and n["op"] in ASSIGN_OPS:
+                l = strip(n["l"])
+                if l is not None and l.get("k") == "var" and "id" in l:
+                    m.setdefault(l["id"], []).append(n["r"] if n["op"] == "=" else None)
+            elif k == "un" and n["op"] in ("++", "--", "post++", "post--"):
+                l = strip(n["e"])
+                if l is not None and l.get("k") == "var" and "id" in l:
+                    m.setdefault(l["id"], []).append(None)
+            elif k == "un" and n["op"] == "&":
+                l = strip(n["e"])
+                if l is not None and l.get("k") == "var" and "id" in l:
+                    m.setdefault(l["id"], []).append(None)
+        return m
+
+    def _build(self):
+        prog = self.prog
+        fns = list(prog.functions.values())
+        info = {}
+        for fn in fns:
+            rets = []
+            for b, ln, x in fn.exprs():
+                if x.get("k") == "ret" and "e" in x:
+                    rets.append(x["e"])
+            info[fn.qname] = (rets, self._assigns(fn), set(p.get("id") for p in fn.params))
+            self.ret[fn.qname] = frozenset()
+        changed = True
+        rounds = 0
+        while changed and rounds < 30:
+            changed = False
+            rounds += 1
+            for fn in fns:
+                rets, assigns, params = info[fn.qname]
+                acc = set()
+                top = False
+                for e in rets:
+                    r = self._sources(fn, e, assigns, params, set())
+                    if r is None:
+                        top = True
+                        break
+                    acc |= r
+                    if len(acc) > self.LIMIT:
+                        top = True
+                        break
+                new = None if top else frozenset(acc)
+                if new != self.ret[fn.qname]:
+                    # monotone: once None stays None
+                    if self.ret[fn.qname] is None:
+                        continue
+                    self.ret[fn.qname] = new
+                    changed = True
+
+    def _sources(self, fn, e, assigns, params, seen):
+        e = strip(e)
+        if e is None:
+            return None
+        k = e.get("k")
+        if k == "int":
+            return {e["v"]}
+        if k == "cond":
+            a = self._sources(fn, e["a"], assigns, params, seen)
+            b = self._sources(fn, e["b"], assigns, params, seen)
+            if a is None or b is None:
+                return None
+            return a | b
+        if k == "call":
+            if "fn" not in e:
+                tg = self.cg.call_targets(fn, e)
+                if not tg:
+                    return None
+            else:
+                t = self.prog.resolve_call(fn, e["fn"])
+                if t is None:
+                    return None
+                tg = [t]
+            acc = set()
+            for t in tg:
+                r = self.ret.get(t.qname)
+                if r is None:
+                    return None
+                acc |= r
+            return acc
+        if k == "var":
+            if "id" not in e or e["id"] in params:
+                return None
+            if e["id"] in seen:
+                return set()
+            seen = seen | {e["id"]}
+            acc = set()
+            lst = assigns.get(e["id"])
+            if not lst:
+                return None
+            for rhs in lst:
+                if rhs is None:
+                    return None
+                r = self._sources(fn, rhs, assigns, params, seen)
+                if r is None:
+                    return None
+                acc |= r
+            return acc
+        if k == "bin" and e["op"] == "=":
+            return self._sources(fn, e["r"], assigns, params, seen)
+        if k == "bin" and e["op"] in ("==", "!=", "<", "<=", ">", ">=", "&&", "||"):
+            return {0, 1}
+        if k == "un" and e["op"] == "!":
+            return {0, 1}
+        return None
+
+
 _CG = None
 
 
@@ -365,4 +508,5 @@ def load_cg(prog):
     global _CG
     if _CG is None or _CG.prog is not prog:
         _CG = CallGraph(prog)
+        _CG.retsets = RetSets(prog, _CG)
     return _CG
